@@ -290,6 +290,27 @@ pub fn op_kmers_adapt<A: HC, const K: usize>(ad: &str, arg: usize, x: &SeqSlice<
         "take" => it.take(arg).collect(),
         "nthnext" => { let mut it = it; let _ = it.nth(arg); it.collect() }
         "count" => return Ok(it.count().to_string()),
+        "lastafter" | "countafter" | "foldafter" | "nthhuge" => {
+            let mut it = it;
+            for _ in 0..arg {
+                let _ = it.next();
+            }
+            match ad {
+                "lastafter" => it.last().into_iter().collect(),
+                "countafter" => return Ok(it.count().to_string()),
+                "foldafter" => {
+                    let mut v = vec![];
+                    it.for_each(|x| v.push(x));
+                    v
+                }
+                _ => {
+                    let first = it.nth(usize::MAX);
+                    let mut v: Vec<Kmer<A, K>> = first.into_iter().collect();
+                    v.extend(it);
+                    v
+                }
+            }
+        }
         "hint" => {
             let mut it = it;
             for _ in 0..arg {
